@@ -124,46 +124,83 @@ def noneStr : Str := "None".toList
 /-- text handed to the transport / stored in a hold queue for a message -/
 def encLine (m : Msg) : Str := (encode m).getD noneStr
 
-def setNode (g : GW) (n : Node) : GW := { g with sensors := aset n.id n g.sensors }
+/-- in-place mutation of the node object stored under key `k` -/
+def setNode (g : GW) (k : Int) (n : Node) : GW := { g with sensors := aset k n g.sensors }
+
+abbrev Res := GW × Out
+
+def ret (g : GW) : Res := (g, {})
+def emit (g : GW) (ls : List Str) : Res := (g, { sent := ls })
+def fail (g : GW) (e : Exc) : Res := (g, { exc := some e })
+
+/-- run `f` on the state reached by `r` unless `r` already raised; outputs accumulate -/
+def seq (r : Res) (f : GW → Res) : Res :=
+  match r.2.exc with
+  | some _ => r
+  | none => ((f r.1).1, r.2 ++ (f r.1).2)
 
 /-- `Gateway.alert` -/
-def alert (g : GW) (m : Msg) : GW × Out :=
+def alert (g : GW) (m : Msg) : Res :=
   ({ g with needSave := if g.persist then true else g.needSave }, { cbs := [m] })
 
-/-- `Gateway._route_message` on a message -/
-def route (g : GW) (m : Msg) : GW × List Str :=
-  if m.type = g.t.mtPresentation then (g, [])
-  else
-    match aget m.node g.sensors with
-    | none => (g, [encLine m])
-    | some n =>
-      if m.type = g.t.mtStream ∨ !n.sleeping then (g, [encLine m])
-      else (setNode g { n with queue := n.queue ++ [encLine m] }, [])
+/-- is a message for this destination withheld (smart-sleeping node, non-stream)? -/
+def holds (g : GW) (m : Msg) : Bool :=
+  match aget m.node g.sensors with
+  | none => false
+  | some n => !(m.type = g.t.mtStream) && n.sleeping
 
-/-- `Gateway.is_sensor`: known?  For ≥ 2.0 an unknown node/child triggers one I_PRESENTATION
-    request to the node (routed: withheld when the node sleeps). -/
-def isSensor (g : GW) (node : Int) (child : Option Int) : Bool × GW × List Str :=
-  let known :=
-    match aget node g.sensors with
-    | none => false
-    | some n => match child with
-      | none => true
-      | some c => (aget c n.children).isSome
-  if known then (true, g, [])
-  else if g.const.ge20 then
+def enqueue (g : GW) (node : Int) (line : Str) : GW :=
+  match aget node g.sensors with
+  | none => g
+  | some n => setNode g node { n with queue := n.queue ++ [line] }
+
+/-- `Gateway._route_message` followed by the send of the encoded reply -/
+def route (g : GW) (m : Msg) : Res :=
+  if m.type = g.t.mtPresentation then ret g
+  else if holds g m then ret (enqueue g m.node (encLine m))
+  else emit g [encLine m]
+
+def isKnown (g : GW) (node : Int) (child : Option Int) : Bool :=
+  match aget node g.sensors with
+  | none => false
+  | some n =>
+    match child with
+    | none => true
+    | some c => (aget c n.children).isSome
+
+/-- for ≥ 2.0 an unknown node/child triggers one I_PRESENTATION request to the node (routed:
+    withheld when the node sleeps) -/
+def requestPresentation (g : GW) (node : Int) : Res :=
+  if g.const.ge20 then
     match g.t.iPresentation with
-    | none => (false, g, [])
-    | some sub =>
-      let (g', sent) := route g ⟨node, Tables.systemChildId, g.t.mtInternal, 0, sub, []⟩
-      (false, g', sent)
-  else (false, g, [])
+    | none => ret g
+    | some sub => route g ⟨node, Tables.systemChildId, g.t.mtInternal, 0, sub, []⟩
+  else ret g
+
+/-- `if not gateway.is_sensor(node, child): return None` around a handler body -/
+def ifKnown (g : GW) (node : Int) (child : Option Int) (f : GW → Res) : Res :=
+  if isKnown g node child then f g else requestPresentation g node
+
+/-- `sensor = gateway.sensors[node]` -/
+def withNode (g : GW) (node : Int) (f : Node → Res) : Res :=
+  match aget node g.sensors with
+  | none => fail g .keyError
+  | some n => f n
+
+/-- a table constant that must exist in this version (KeyError / AttributeError otherwise) -/
+def withConst (g : GW) (o : Option Int) (f : Int → Res) : Res :=
+  match o with
+  | none => fail g .keyError
+  | some a => f a
+
+def nextCandidate (g : GW) : Int :=
+  match akeys g.sensors with
+  | [] => 1
+  | k :: ks => ks.foldl max k + 1
 
 /-- `Gateway._get_next_id` -/
 def nextId (g : GW) : Option Int :=
-  let nxt := match akeys g.sensors with
-    | [] => 1
-    | k :: ks => ks.foldl max k + 1
-  if nxt ≤ g.t.maxNodeId then some nxt else none
+  if nextCandidate g ≤ g.t.maxNodeId then some (nextCandidate g) else none
 
 /-- `Gateway.add_sensor(sensorid)` for an explicit id (new nodes mark the state unsaved) -/
 def addSensor (g : GW) (id : Int) : GW :=
@@ -177,10 +214,9 @@ def createSetMessage (g : GW) (node child : Int) (vt : Option Int) (value : Str)
   match vt with
   | none => .error .valueError
   | some vt =>
-    let m : Msg := ⟨node, child, g.t.mtSet, ack, vt, value⟩
-    match encode m with
-    | none => .error .valueError
-    | some _ => if validate g.const m then .ok m else .error .volInvalid
+    if (encode ⟨node, child, g.t.mtSet, ack, vt, value⟩).isNone then .error .valueError
+    else if validate g.const ⟨node, child, g.t.mtSet, ack, vt, value⟩ then .ok ⟨node, child, g.t.mtSet, ack, vt, value⟩
+    else .error .volInvalid
 
 /-- `Sensor.validate_child_state` against the node's own protocol version -/
 def validateChildState (n : Node) (child : Int) (vt : Option Int) (value : Str) : Except Exc Unit :=
@@ -188,315 +224,296 @@ def validateChildState (n : Node) (child : Int) (vt : Option Int) (value : Str) 
   | none => .error .valueError
   | some vt =>
     let c := (selectConst n.version).getD .v14
-    let m : Msg := ⟨n.id, child, (Tables.tables c).mtSet, 0, vt, value⟩
-    match encode m with
-    | none => .error .valueError
-    | some _ => if validate c m then .ok () else .error .volInvalid
+    if (encode ⟨n.id, child, (Tables.tables c).mtSet, 0, vt, value⟩).isNone then .error .valueError
+    else if validate c ⟨n.id, child, (Tables.tables c).mtSet, 0, vt, value⟩ then .ok ()
+    else .error .volInvalid
+
+def initDesired (d : List (Int × List (Int × Option Str))) (cid : Int) : List (Int × List (Int × Option Str)) :=
+  match aget cid d with
+  | some _ => d
+  | none => d ++ [(cid, [])]
 
 /-- `init_smart_sleep_mode` -/
 def initSleep (n : Node) : Node :=
-  let d := n.children.foldl
-    (fun d (cid, _) => match aget cid d with | some _ => d | none => d ++ [(cid, [])]) n.desired
-  { n with desired := d }
+  { n with desired := (akeys n.children).foldl initDesired n.desired }
 
-/-- the set commands of a wake-up: one per (child, reported value type) with a pending desired
-    value; stops at the first command that cannot be built -/
-def wakeSets (g : GW) (n : Node) : List Str × Option Exc :=
-  let pairs : List (Int × Int × Str) := n.children.flatMap fun (cid, ch) =>
-    match aget cid n.desired with
-    | none => []
-    | some dv => ch.values.filterMap fun (vt, _) =>
-        match aget vt dv with
-        | some (some v) => some (cid, vt, v)
-        | _ => none
-  pairs.foldl (fun (acc : List Str × Option Exc) (cid, vt, v) =>
-    match acc.2 with
-    | some _ => acc
-    | none =>
-      match createSetMessage g n.id cid (some vt) v 0 with
-      | .ok m => (acc.1 ++ [encLine m], none)
-      | .error e => (acc.1, some e)) ([], none)
+/-- pending (child, value type, value) triples in flush order: children in presentation order,
+    value types in first-report order -/
+def pendingOfChild (desired : List (Int × List (Int × Option Str))) (c : Int × Child) : List (Int × Int × Str) :=
+  match aget c.1 desired with
+  | none => []
+  | some dv => c.2.values.filterMap fun kv =>
+      match aget kv.1 dv with
+      | some (some v) => some (c.1, kv.1, v)
+      | _ => none
+
+def pending (n : Node) : List (Int × Int × Str) := n.children.flatMap (pendingOfChild n.desired)
+
+/-- build the set commands one by one; stop at the first that cannot be built -/
+def buildSets (g : GW) (node : Int) : List (Int × Int × Str) → List Str × Option Exc
+  | [] => ([], none)
+  | (cid, vt, v) :: rest =>
+    match createSetMessage g node cid (some vt) v 0 with
+    | .error e => ([], some e)
+    | .ok m => ((encLine m) :: (buildSets g node rest).1, (buildSets g node rest).2)
 
 /-- `handle_smartsleep` for a known node -/
-def smartSleep (g : GW) (node : Int) : GW × Out :=
-  match aget node g.sensors with
-  | none => (g, { exc := some .keyError })
-  | some n =>
-    let n1 := initSleep n
-    let flushed := n1.queue
-    let n2 := { n1 with queue := [] }
-    let g2 := setNode g n2
-    let (sets, e) := wakeSets g2 n2
-    (g2, { sent := flushed ++ sets, exc := e })
+def smartSleep (g : GW) (node : Int) : Res :=
+  withNode g node fun n =>
+    let n2 : Node := { initSleep n with queue := [] }
+    let sets := buildSets (setNode g node n2) n2.id (pending n2)
+    (setNode g node n2, { sent := n.queue ++ sets.1, exc := sets.2 })
 
 /-- reply of a handler: copy of the request with replaced fields, routed -/
-def replyCopy (g : GW) (m : Msg) (kw : Kw) : GW × Out :=
+def replyCopy (g : GW) (m : Msg) (kw : Kw) : Res :=
   match m.copy kw with
-  | .raised => (g, { exc := some .valueError })
-  | .ok r => let (g', sent) := route g r; (g', { sent := sent })
-
-def seq (r : GW × Out) (f : GW → GW × Out) : GW × Out :=
-  match r.2.exc with
-  | some _ => r
-  | none => let r' := f r.1; (r'.1, r.2 ++ r'.2)
+  | .raised => fail g .valueError
+  | .ok r => route g r
 
 /-! ### OTA -/
 
-def otaConfigResponse (g : GW) (m : Msg) : GW × Option Msg × Option Exc :=
-  match fwHexToInt m.payload 5 with
-  | none => (g, none, none)
-  | some _ =>
-    let o := g.ota
-    let pick : Option ((Int × Int) × OtaState) :=
-      match aget m.node o.requested with
-      | some fid => some (fid, { o with requested := aerase m.node o.requested, unstarted := aset m.node fid o.unstarted })
-      | none =>
-        match aget m.node o.unstarted with
-        | some fid => some (fid, { o with unstarted := aset m.node fid (aerase m.node o.unstarted) })
-        | none => none
-    match pick with
-    | none => (g, none, none)
-    | some (fid, o') =>
-      let g' := { g with ota := o' }
-      match lookup fid o'.firmware, g.t.stConfigResponse with
-      | some fw, some sub =>
-        match m.copy { sub := some sub } with
-        | .raised => (g', none, some .valueError)
-        | .ok r =>
-          match fwIntToHex [fid.1.toNat, fid.2.toNat, fw.blocks, fw.crc] with
-          | some p => (g', some { r with payload := p }, none)
-          | none => (g', none, some .structError)
-      | _, _ => (g', none, none)
+/-- `_get_fw` store migration for a config request: requested → unstarted, unstarted stays -/
+def pickConfig (o : OtaState) (node : Int) : Option ((Int × Int) × OtaState) :=
+  match aget node o.requested with
+  | some fid => some (fid, { o with requested := aerase node o.requested, unstarted := aset node fid o.unstarted })
+  | none =>
+    match aget node o.unstarted with
+    | some fid => some (fid, { o with unstarted := aset node fid (aerase node o.unstarted) })
+    | none => none
 
-def otaBlockResponse (g : GW) (m : Msg) : GW × Option Msg × Option Exc :=
+/-- `_get_fw` store migration for a block request: unstarted → started, started stays -/
+def pickBlock (o : OtaState) (node : Int) : Option OtaState :=
+  match aget node o.unstarted with
+  | some fid => some { o with unstarted := aerase node o.unstarted, started := aset node fid o.started }
+  | none =>
+    match aget node o.started with
+    | some fid => some { o with started := aset node fid (aerase node o.started) }
+    | none => none
+
+/-- result of a stream handler: new state, reply message (if any), exception (if any) -/
+structure StreamRes where
+  g : GW
+  reply : Option Msg := none
+  exc : Option Exc := none
+
+def configReply (g : GW) (m : Msg) (fid : Int × Int) (fw : Fw) (sub : Int) : StreamRes :=
+  match m.copy { sub := some sub } with
+  | .raised => { g := g, exc := some .valueError }
+  | .ok r =>
+    match fwIntToHex [fid.1.toNat, fid.2.toNat, fw.blocks, fw.crc] with
+    | some p => { g := g, reply := some { r with payload := p } }
+    | none => { g := g, exc := some .structError }
+
+def otaConfigResponse (g : GW) (m : Msg) : StreamRes :=
+  match fwHexToInt m.payload 5 with
+  | none => { g := g }
+  | some _ =>
+    match pickConfig g.ota m.node with
+    | none => { g := g }
+    | some (fid, o') =>
+      match lookup fid o'.firmware, g.t.stConfigResponse with
+      | some fw, some sub => configReply { g with ota := o' } m fid fw sub
+      | _, _ => { g := { g with ota := o' } }
+
+def blockReply (g : GW) (m : Msg) (rt rv blk : Nat) (fw : Fw) (sub : Int) : StreamRes :=
+  match m.copy { sub := some sub } with
+  | .raised => { g := g, exc := some .valueError }
+  | .ok r =>
+    match fwIntToHex [rt, rv, blk] with
+    | some p => { g := g, reply := some { r with payload := p ++ hexBytes (fwBlock fw.data blk) } }
+    | none => { g := g, exc := some .structError }
+
+def otaBlockResponse (g : GW) (m : Msg) : StreamRes :=
   match fwHexToInt m.payload 3 with
   | some [rt, rv, blk] =>
-    let o := g.ota
-    let pick : Option OtaState :=
-      match aget m.node o.unstarted with
-      | some fid => some { o with unstarted := aerase m.node o.unstarted, started := aset m.node fid o.started }
-      | none =>
-        match aget m.node o.started with
-        | some fid => some { o with started := aset m.node fid (aerase m.node o.started) }
-        | none => none
-    match pick with
-    | none => (g, none, none)
+    match pickBlock g.ota m.node with
+    | none => { g := g }
     | some o' =>
-      let g' := { g with ota := o' }
       match lookup ((rt : Int), (rv : Int)) o'.firmware, g.t.stResponse with
-      | some fw, some sub =>
-        match m.copy { sub := some sub } with
-        | .raised => (g', none, some .valueError)
-        | .ok r =>
-          match fwIntToHex [rt, rv, blk] with
-          | some p => (g', some { r with payload := p ++ hexBytes (fwBlock fw.data blk) }, none)
-          | none => (g', none, some .structError)
-      | _, _ => (g', none, none)
-  | _ => (g, none, none)
+      | some fw, some sub => blockReply { g with ota := o' } m rt rv blk fw sub
+      | _, _ => { g := { g with ota := o' } }
+  | _ => { g := g }
+
+def storeFirmware (fws : List ((Int × Int) × Fw)) (key : Int × Int) (fw : Fw) : List ((Int × Int) × Fw) :=
+  match lookup key fws with
+  | some _ => fws.map fun kv => if kv.1 = key then (kv.1, fw) else kv
+  | none => fws ++ [(key, fw)]
+
+def scheduleNode (fwt fwv : Int) (g : GW) (nid : Int) : GW :=
+  match aget nid g.sensors with
+  | none => g
+  | some n =>
+    let o' : OtaState := { g.ota with unstarted := aerase nid g.ota.unstarted, started := aerase nid g.ota.started, requested := aset nid (fwt, fwv) g.ota.requested }
+    setNode { g with ota := o' } nid { n with reboot := true }
 
 /-- `OTAFirmware.make_update` with integer type/version -/
 def makeUpdate (g : GW) (nids : List Int) (fwt fwv : Int) (image : Option (List Nat)) : GW :=
   if ¬ (0 ≤ fwt ∧ fwt ≤ 0xFFFF ∧ 0 ≤ fwv ∧ fwv ≤ 0xFFFF) then g else
-  let stored : Option (List ((Int × Int) × Fw)) :=
-    match image with
-    | none => some g.ota.firmware
-    | some img =>
-      let fw := prepareFw img
-      if fw.blocks > 0xFFFF then none
-      else some (
-        match lookup (fwt, fwv) g.ota.firmware with
-        | some _ => g.ota.firmware.map fun (k, v) => if k = (fwt, fwv) then (k, fw) else (k, v)
-        | none => g.ota.firmware ++ [((fwt, fwv), fw)])
-  match stored with
-  | none => g
-  | some firmware =>
-    let g1 := { g with ota := { g.ota with firmware := firmware } }
-    if (lookup (fwt, fwv) firmware).isNone then g1 else
-    nids.foldl (fun g nid =>
-      match aget nid g.sensors with
-      | none => g
-      | some n =>
-        let o := g.ota
-        let o' : OtaState := { o with unstarted := aerase nid o.unstarted, started := aerase nid o.started, requested := aset nid (fwt, fwv) o.requested }
-        let g' := { g with ota := o' }
-        setNode g' { n with reboot := true }) g1
+  match image with
+  | some img =>
+    if (prepareFw img).blocks > 0xFFFF then g
+    else nids.foldl (scheduleNode fwt fwv) { g with ota := { g.ota with firmware := storeFirmware g.ota.firmware (fwt, fwv) (prepareFw img) } }
+  | none =>
+    if (lookup (fwt, fwv) g.ota.firmware).isNone then g
+    else nids.foldl (scheduleNode fwt fwv) g
 
 /-! ### handlers -/
+
+def clearDesired (n : Node) (child vt : Int) : Node :=
+  match aget child n.desired with
+  | none => n
+  | some dv => { n with desired := aset child (aset vt none dv) n.desired }
 
 def updateChildValue (n : Node) (child vt : Int) (v : Str) : Node :=
   match aget child n.children with
   | none => n
-  | some ch =>
-    let n' := { n with children := aset child { ch with values := aset vt v ch.values } n.children }
-    match aget child n'.desired with
-    | none => n'
-    | some dv => { n' with desired := aset child (aset vt none dv) n'.desired }
+  | some ch => clearDesired { n with children := aset child { ch with values := aset vt v ch.values } n.children } child vt
+
+def pendingValue (n : Node) (child vt : Int) : Option Str :=
+  if n.sleeping then
+    match aget child n.desired with
+    | some dv => (aget vt dv).join
+    | none => none
+  else none
 
 /-- desired-or-actual value of `get_desired_value` -/
 def desiredValue (n : Node) (child vt : Int) : Option Str :=
   match aget child n.children with
   | none => none
-  | some ch =>
-    let d : Option Str :=
-      if n.sleeping then
-        match aget child n.desired with
-        | some dv => (aget vt dv).join
-        | none => none
-      else none
-    match d with
-    | some v => some v
-    | none => aget vt ch.values
+  | some ch => (pendingValue n child vt).or (aget vt ch.values)
 
-def handlePresentation (g : GW) (m : Msg) : GW × Out × Bool :=
-  if m.child = Tables.systemChildId then
-    let g1 := addSensor g m.node
-    match aget m.node g1.sensors with
-    | none => (g1, {}, false)
-    | some n =>
-      let ver := (safeVersion m.payload).getD ['1', '.', '4']
-      let g2 := setNode g1 { n with type := some m.sub, version := ver, reboot := false }
-      let (g3, o) := alert g2 m
-      (g3, o, true)
-  else
-    let (ok, g1, sent) := isSensor g m.node none
-    if !ok then (g1, { sent := sent }, false)
-    else
-      match aget m.node g1.sensors with
-      | none => (g1, {}, false)
-      | some n =>
-        match aget m.child n.children with
-        | some _ => (g1, {}, false)
-        | none =>
-          let g2 := setNode g1 { n with children := n.children ++ [(m.child, ⟨m.child, m.sub, m.payload, []⟩)] }
-          let (g3, o) := alert g2 m
-          (g3, o, true)
+def defaultVersion : Str := ['1', '.', '4']
 
-def handleSet (g : GW) (m : Msg) : GW × Out :=
-  let (ok, g1, sent) := isSensor g m.node (some m.child)
-  if !ok then (g1, { sent := sent })
-  else
-    match aget m.node g1.sensors with
-    | none => (g1, { exc := some .keyError })
-    | some n =>
-      let n' := updateChildValue n m.child m.sub m.payload
-      let g2 := setNode g1 n'
-      seq (alert g2 m) fun g3 =>
-        if n'.reboot then
-          match g3.t.iReboot with
-          | some sub =>
-            replyCopy g3 m { child := some Tables.systemChildId, type := some g3.t.mtInternal, ack := some 0, sub := some sub, payload := some [] }
-          | none => (g3, { exc := some .keyError })
-        else (g3, {})
+def presentNode (g : GW) (m : Msg) : Res :=
+  withNode (addSensor g m.node) m.node fun n =>
+    alert (setNode (addSensor g m.node) m.node { n with type := some m.sub, version := (safeVersion m.payload).getD defaultVersion, reboot := false }) m
 
-def handleReq (g : GW) (m : Msg) : GW × Out :=
-  let (ok, g1, sent) := isSensor g m.node (some m.child)
-  if !ok then (g1, { sent := sent })
-  else
-    match aget m.node g1.sensors with
-    | none => (g1, { exc := some .keyError })
-    | some n =>
+def presentChild (g : GW) (m : Msg) : Res :=
+  ifKnown g m.node none fun g1 =>
+    withNode g1 m.node fun n =>
+      match aget m.child n.children with
+      | some _ => ret g1
+      | none => alert (setNode g1 m.node { n with children := n.children ++ [(m.child, ⟨m.child, m.sub, m.payload, []⟩)] }) m
+
+def handlePresentation (g : GW) (m : Msg) : Res :=
+  if m.child = Tables.systemChildId then presentNode g m else presentChild g m
+
+/-- MQTT: did this presentation add a child (whose topics are then subscribed)? -/
+def addsChild (g : GW) (m : Msg) : Bool :=
+  !(m.child = Tables.systemChildId) && isKnown g m.node none && !isKnown g m.node (some m.child)
+
+def rebootReply (g : GW) (m : Msg) (reboot : Bool) : Res :=
+  if reboot then
+    withConst g g.t.iReboot fun sub =>
+      replyCopy g m { child := some Tables.systemChildId, type := some g.t.mtInternal, ack := some 0, sub := some sub, payload := some [] }
+  else ret g
+
+def handleSet (g : GW) (m : Msg) : Res :=
+  ifKnown g m.node (some m.child) fun g1 =>
+    withNode g1 m.node fun n =>
+      seq (alert (setNode g1 m.node (updateChildValue n m.child m.sub m.payload)) m) fun g3 =>
+        rebootReply g3 m n.reboot
+
+def handleReq (g : GW) (m : Msg) : Res :=
+  ifKnown g m.node (some m.child) fun g1 =>
+    withNode g1 m.node fun n =>
       match desiredValue n m.child m.sub with
-      | none => (g1, {})
+      | none => ret g1
       | some v => replyCopy g1 m { type := some g1.t.mtSet, payload := some v }
 
-def knownNodeThen (g : GW) (m : Msg) (f : GW → Node → GW × Out) : GW × Out :=
-  let (ok, g1, sent) := isSensor g m.node none
-  if !ok then (g1, { sent := sent })
-  else
-    match aget m.node g1.sensors with
-    | none => (g1, { exc := some .keyError })
-    | some n => f g1 n
+def batteryOf (p : Str) : Int :=
+  match pyInt p with
+  | some v => if 0 ≤ v ∧ v ≤ 100 then v else 0
+  | none => 0
 
-def handleInternalBy (h : HandlerId) (g : GW) (m : Msg) : GW × Out :=
+def handleIdRequest (g : GW) (m : Msg) : Res :=
+  match nextId g with
+  | none => ret g
+  | some id =>
+    withConst (addSensor g id) (addSensor g id).t.iIdResponse fun sub =>
+      replyCopy (addSensor g id) m { ack := some 0, sub := some sub, payload := some (renderInt id) }
+
+def handleHeartbeat (g : GW) (m : Msg) : Res :=
+  withNode g m.node fun n => alert (setNode g m.node { n with heartbeat := (pyInt m.payload).getD 0 }) m
+
+def handleInternalBy (h : HandlerId) (g : GW) (m : Msg) : Res :=
   match h with
-  | .handle_id_request =>
-    match nextId g with
-    | none => (g, {})
-    | some id =>
-      let g1 := addSensor g id
-      match g1.t.iIdResponse with
-      | some sub => replyCopy g1 m { ack := some 0, sub := some sub, payload := some (renderInt id) }
-      | none => (g1, { exc := some .keyError })
-  | .handle_config =>
-    replyCopy g m { ack := some 0, payload := some (if g.metric then ['M'] else ['I']) }
+  | .handle_id_request => handleIdRequest g m
+  | .handle_config => replyCopy g m { ack := some 0, payload := some (if g.metric then ['M'] else ['I']) }
   | .handle_time => replyCopy g m { ack := some 0, payload := some (renderInt g.clock) }
   | .handle_battery_level =>
-    knownNodeThen g m fun g1 n =>
-      let b : Int := match pyInt m.payload with
-        | some v => if 0 ≤ v ∧ v ≤ 100 then v else 0
-        | none => 0
-      alert (setNode g1 { n with battery := b }) m
+    ifKnown g m.node none fun g1 => withNode g1 m.node fun n =>
+      alert (setNode g1 m.node { n with battery := batteryOf m.payload }) m
   | .handle_sketch_name =>
-    knownNodeThen g m fun g1 n => alert (setNode g1 { n with sketchName := some m.payload }) m
+    ifKnown g m.node none fun g1 => withNode g1 m.node fun n =>
+      alert (setNode g1 m.node { n with sketchName := some m.payload }) m
   | .handle_sketch_version =>
-    knownNodeThen g m fun g1 n => alert (setNode g1 { n with sketchVersion := some m.payload }) m
-  | .handle_log_message => ({ g with canLog := true }, {})
+    ifKnown g m.node none fun g1 => withNode g1 m.node fun n =>
+      alert (setNode g1 m.node { n with sketchVersion := some m.payload }) m
+  | .handle_log_message => ret { g with canLog := true }
   | .handle_gateway_ready => alert g m
   | .handle_gateway_ready_20 =>
     seq (alert g m) fun g1 =>
-      match g1.t.iDiscover with
-      | some sub => replyCopy g1 m { node := some 255, ack := some 0, sub := some sub, payload := some [] }
-      | none => (g1, { exc := some .keyError })
+      withConst g1 g1.t.iDiscover fun sub =>
+        replyCopy g1 m { node := some 255, ack := some 0, sub := some sub, payload := some [] }
   | .handle_heartbeat_response =>
-    knownNodeThen g m fun g1 _ =>
-      seq (smartSleep g1 m.node) fun g2 =>
-        match aget m.node g2.sensors with
-        | none => (g2, { exc := some .keyError })
-        | some n => alert (setNode g2 { n with heartbeat := (pyInt m.payload).getD 0 }) m
-  | .handle_discover_response =>
-    let (_, g1, sent) := isSensor g m.node none
-    (g1, { sent := sent })
-  | .handle_heartbeat_response_22 =>
-    knownNodeThen g m fun g1 n =>
-      alert (setNode g1 { n with heartbeat := (pyInt m.payload).getD 0 }) m
-  | .handle_pre_sleep_notification =>
-    knownNodeThen g m fun g1 _ => smartSleep g1 m.node
-  | _ => (g, { exc := some .typeError })
+    ifKnown g m.node none fun g1 => seq (smartSleep g1 m.node) fun g2 => handleHeartbeat g2 m
+  | .handle_discover_response => ifKnown g m.node none ret
+  | .handle_heartbeat_response_22 => ifKnown g m.node none fun g1 => handleHeartbeat g1 m
+  | .handle_pre_sleep_notification => ifKnown g m.node none fun g1 => smartSleep g1 m.node
+  | _ => fail g .typeError
 
-def handleStream (g : GW) (m : Msg) : GW × Out :=
-  knownNodeThen g m fun g1 _ =>
+def streamResBy (h : HandlerId) (g : GW) (m : Msg) : StreamRes :=
+  match h with
+  | .handle_firmware_config_request => otaConfigResponse g m
+  | .handle_firmware_request => otaBlockResponse g m
+  | _ => { g := g, exc := some .typeError }
+
+def finishStream (r : StreamRes) (m : Msg) : Res :=
+  match r.exc with
+  | some e => fail r.g e
+  | none =>
+    seq (alert r.g m) fun g3 =>
+      match r.reply with
+      | none => ret g3
+      | some rep => route g3 rep
+
+def handleStream (g : GW) (m : Msg) : Res :=
+  ifKnown g m.node none fun g1 =>
     match lookup m.sub g1.t.streamHandlers with
-    | none => (g1, {})
-    | some h =>
-      let (g2, reply, e) :=
-        match h with
-        | .handle_firmware_config_request => otaConfigResponse g1 m
-        | .handle_firmware_request => otaBlockResponse g1 m
-        | _ => (g1, none, some .typeError)
-      match e with
-      | some e => (g2, { exc := some e })
-      | none =>
-        seq (alert g2 m) fun g3 =>
-          match reply with
-          | none => (g3, {})
-          | some r => let (g4, sent) := route g3 r; (g4, { sent := sent })
+    | none => ret g1
+    | some h => finishStream (streamResBy h g1 m) m
 
-def handleInternal (g : GW) (m : Msg) : GW × Out :=
-  if g.kind = .tcp ∧ some m.sub = g.t.iVersion then (g, {})      -- TCP: watchdog answer, no reply
+def handleInternal (g : GW) (m : Msg) : Res :=
+  if g.kind = .tcp ∧ some m.sub = g.t.iVersion then ret g      -- TCP: watchdog answer, no reply
   else
     match lookup m.sub g.t.internalHandlers with
-    | none => (g, {})
+    | none => ret g
     | some h => handleInternalBy h g m
 
-/-- dispatch of a decoded and validated message -/
-def dispatch (g : GW) (m : Msg) : GW × Out :=
-  match lookup m.type g.t.typeHandlers with
-  | none => (g, { exc := some .typeError })
-  | some .handle_presentation =>
-    let (g', o, added) := handlePresentation g m
+def dispatchBy (h : HandlerId) (g : GW) (m : Msg) : Res :=
+  match h with
+  | .handle_presentation =>
     -- MQTT: a newly presented child gets its topics subscribed
-    if g.kind = .mqtt ∧ added ∧ m.child ≠ 255 then (g', o ++ { subs := [(m.node, m.child)] }) else (g', o)
-  | some .handle_set => handleSet g m
-  | some .handle_req => handleReq g m
-  | some .handle_internal => handleInternal g m
-  | some .handle_stream => handleStream g m
-  | some _ => (g, { exc := some .typeError })
+    if g.kind = .mqtt ∧ addsChild g m then ((handlePresentation g m).1, (handlePresentation g m).2 ++ { subs := [(m.node, m.child)] })
+    else handlePresentation g m
+  | .handle_set => handleSet g m
+  | .handle_req => handleReq g m
+  | .handle_internal => handleInternal g m
+  | .handle_stream => handleStream g m
+  | _ => fail g .typeError
+
+/-- dispatch of a decoded and validated message -/
+def dispatch (g : GW) (m : Msg) : Res :=
+  match lookup m.type g.t.typeHandlers with
+  | none => fail g .typeError
+  | some h => dispatchBy h g m
 
 /-- `Gateway.logic(line)` through the inline pump -/
-def logic (g : GW) (line : Str) : GW × Out :=
+def logic (g : GW) (line : Str) : Res :=
   match decode line with
-  | none => (g, {})
-  | some m => if validate g.const m then dispatch g m else (g, {})
+  | none => ret g
+  | some m => if validate g.const m then dispatch g m else ret g
 
 /-! ### controller calls -/
 
@@ -507,27 +524,22 @@ def VT.toInt : VT → Option Int
   | .int n => some n
   | .str s => pyInt s
 
+def storeDesired (g : GW) (node child : Int) (n : Node) (vt : Option Int) (value : Str) : Res :=
+  match aget child n.desired with
+  | none => fail g .valueError
+  | some dv =>
+    match validateChildState n child vt value, vt with
+    | .error e, _ => fail g e
+    | .ok _, none => fail g .valueError
+    | .ok _, some vti => ret (setNode g node { n with desired := aset child (aset vti (some value) dv) n.desired })
+
 /-- `Gateway.set_child_value(node, child, value_type, value, ack=…)` -/
-def setChildValue (g : GW) (node child : Int) (vt : VT) (value : Str) (ack : Option Int) : GW × Out :=
-  let (ok, g1, sent) := isSensor g node (some child)
-  if !ok then (g1, { sent := sent })
-  else
-    match aget node g1.sensors with
-    | none => (g1, { exc := some .keyError })
-    | some n =>
+def setChildValue (g : GW) (node child : Int) (vt : VT) (value : Str) (ack : Option Int) : Res :=
+  ifKnown g node (some child) fun g1 =>
+    withNode g1 node fun n =>
       match createSetMessage g1 node child vt.toInt value (ack.getD 0) with
-      | .error e => (g1, { exc := some e })
-      | .ok msg =>
-        if n.sleeping then
-          match aget child n.desired with
-          | none => (g1, { exc := some .valueError })
-          | some dv =>
-            match validateChildState n child vt.toInt value, vt.toInt with
-            | .error e, _ => (g1, { exc := some e })
-            | .ok _, none => (g1, { exc := some .valueError })
-            | .ok _, some vti =>
-              (setNode g1 { n with desired := aset child (aset vti (some value) dv) n.desired }, {})
-        else (g1, { sent := [encLine msg] })
+      | .error e => fail g1 e
+      | .ok msg => if n.sleeping then storeDesired g1 node child n vt.toInt value else emit g1 [encLine msg]
 
 /-! ### persistence (abstract: the file holds the persisted projection) -/
 
@@ -552,10 +564,10 @@ inductive Op
 
 /-- `MQTTTransport.send` re-decodes every outgoing line to build the topic and drops (logs) a
     line that does not decode; the serial / TCP transports write the text as it is. -/
-def transportFilter (g : GW) (r : GW × Out) : GW × Out :=
+def transportFilter (g : GW) (r : Res) : Res :=
   if g.kind = .mqtt then (r.1, { r.2 with sent := r.2.sent.filter fun l => (decode l).isSome }) else r
 
-def step (g : GW) : Op → GW × Out
+def step (g : GW) : Op → Res
   | .line s => transportFilter g (logic g s)
   | .setValue n c vt v a => transportFilter g (setChildValue g n c vt v a)
   | .update nids t v img => (makeUpdate g nids t v img, {})
